@@ -486,6 +486,10 @@ func execNotebook(ops []string, mon *Mon) (out []string) {
 						if !foundP {
 							mon.Hit("C08", "saved-not-found-by-search", map[string]interface{}{"op": nbPretty(o), "word": marker, "entry_point": "SearchWithPipelineOptions (wtf pipeline)", "db": len(db.Commands)})
 						}
+						// the same behind a LARGE main database, at the default limit: forty main pipelines that share the word, the
+						// notebook after them (where the loader puts it).  Judged against the engine's own unlimited ranking: an entry
+						// that is strictly among the best of it must be in the limited answer.
+						nbBehindLargeMain(mon, o, marker, db.Commands[len(main):], idx-len(main))
 					}
 				}
 				// "exactly the main entries followed by the notebook entries": entry for entry what the loader makes of each file
@@ -560,4 +564,47 @@ func toolRoundTrip(args []string) int {
 	cs, st := nbLoad(args[0])
 	fmt.Println(st == "" && nbRoundTrips(cs))
 	return 0
+}
+
+func nbBehindLargeMain(mon *Mon, o, marker string, personal []database.Command, pidx int) {
+	defer func() {
+		if p := recover(); p != nil {
+			mon.Tag("c08.large-main-stage-panicked")
+		}
+	}()
+	if pidx < 0 || pidx >= len(personal) || strings.ContainsAny(marker, " \t\n") {
+		return
+	}
+	var cmds []database.Command
+	for i := 0; i < 40; i++ {
+		cmds = append(cmds, database.Command{Command: "cat part" + Itoa(i) + ".log | " + marker + " | head -n " + Itoa(i+1),
+			Description: marker + " the lines of part " + Itoa(i), Keywords: []string{marker}, Pipeline: true})
+	}
+	cmds = append(cmds, personal...)
+	big := buildDB(cmds, nil)
+	if big == nil || len(big.Commands) != len(cmds) {
+		return
+	}
+	target := &big.Commands[40+pidx]
+	q := target.Command
+	full := big.SearchWithPipelineOptions(q, database.SearchOptions{Limit: len(big.Commands) + 10, PipelineOnly: true})
+	lim := big.SearchWithPipelineOptions(q, database.SearchOptions{PipelineOnly: true})
+	rank := -1
+	for i, r := range full {
+		if r.Command == target {
+			rank = i
+		}
+	}
+	k := len(lim)
+	if k == 0 || rank < 0 || rank >= k || k >= len(full) || !(full[rank].Score > full[k].Score) {
+		return // not strictly among the best k of the unlimited ranking: nothing to demand
+	}
+	mon.Tag("c08.behind-large-main")
+	for _, r := range lim {
+		if r.Command == target {
+			return
+		}
+	}
+	mon.Hit("C08", "saved-not-found-by-search", map[string]interface{}{"op": nbPretty(o), "query": q, "entry_point": "SearchWithPipelineOptions at the default limit, notebook behind 40 main pipelines that share the word " + marker,
+		"rank_in_unlimited_answer": rank, "answer_size": k, "db": len(big.Commands)})
 }
